@@ -42,7 +42,7 @@ try:
         s = s.replace(e["old"], e["new"], 1 if not e.get("all") else -1)
         open(p, "w").write(s)
     t0 = time.time()
-    r = subprocess.run([os.path.join(root, "vcheck"), prop, tier], capture_output=True, text=True)
+    r = subprocess.run([os.path.join(root, "vcheck"), prop, tier], capture_output=True, text=True, errors="replace")
     out = r.stdout + r.stderr
     viol = [l for l in out.splitlines() if l.startswith("VIOLATION")]
     print(f"mutant={mid} check={prop} tier={tier} exit={r.returncode} violations={len(viol)} wall={time.time()-t0:.1f}s negative_control={m.get('negative_control', False)}")
